@@ -86,7 +86,15 @@ def run(rep, facts):
     else:
         rep.ok("R3.2", "parse/clear-then-drive", "all %d return paths: output.clear() then replace_with_and_return(&mut self.state, ..)" % n, b.loc())
     # the two closures
-    cl = sorted([bb for bb in facts.bodies if bb.kind == "Closure" and bb.npath.startswith(RP + "::parse::")], key=lambda x: x.path)
+    # the two closures handed to replace_with_and_return (wherever that call sits: in parse itself or in a helper of it)
+    cl_paths = set()
+    for r in rows:
+        for c in r.called("replace_with::replace_with_and_return"):
+            for a in c[1][1:]:
+                for y in ir.walk(a):
+                    if y[0] == 'agg' and y[1] == 'closure':
+                        cl_paths.add(y[2])
+    cl = sorted([bb for bb in facts.bodies if bb.kind == "Closure" and bb.path in cl_paths], key=lambda x: x.path)
     okd = oks = False
     for cb in cl:
         cg = ieg.IEG(facts, cb, inline_filter=lambda x: False)
